@@ -84,11 +84,31 @@ fn check(c: &Case, lo: &mut Local, st: &mut Stats) -> Result<(), Failure> {
     }
     let on = &lo.on[c.optidx % 8];
     on.finish().map_err(pf)?;
-    let l = on.type_text(&text).map_err(pf)?.unwrap();
-    on.finish().map_err(pf)?;
-    if l.lonely {
-        return Err(Failure::new("not-list", "single string returned with suggestions on", case()));
+    lo.off.finish().map_err(pf)?;
+    // every prefix is a typed text of its own: the single string of the suggestions-off context must be
+    // one of the candidates of the suggestions-on context after every key
+    let mut l = None;
+    let mut typed = String::new();
+    for ch in text.chars() {
+        typed.push(ch);
+        let single = lo.off.ch(ch, 0).map_err(pf)?;
+        let list = on.ch(ch, 0).map_err(pf)?;
+        if list.lonely {
+            return Err(Failure::new("not-list", "single string returned with suggestions on", case()));
+        }
+        if !list.cands.iter().any(|x| uncurl(x) == single.text) {
+            return Err(Failure::new(
+                "transliteration-not-offered",
+                format!("typed {typed:?} ({}): the transliteration {:?} (suggestions off) is not among the {} candidates {:?}", on.opts.letters(), single.text, list.cands.len(), list.cands),
+                case(),
+            ));
+        }
+        st.count("prefixes-compared", 1);
+        l = Some(list);
     }
+    lo.off.finish().map_err(pf)?;
+    on.finish().map_err(pf)?;
+    let l = l.unwrap();
     if !l.cands.iter().any(|x| uncurl(x) == expected) {
         return Err(Failure::new(
             "transliteration-not-offered",
